@@ -4,7 +4,7 @@
       dump of every state-API getter evaluated on the impl-model's state (names looked up in
       a case-variant spelling).
    "state.ref": same args. Observation: "conf=T|F;abs=T|F;" followed by the same getter
-      dump computed from the REFERENCE model's told-state (Spec/NetRef.v ref_run): conf says
+      dump computed from the REFERENCE model's told-state (Spec/NetRef.v told_run): conf says
       whether the history is conformant, abs whether abs (impl-model state) = told-state.
       The Go oracle compares the implementation's getters with this dump. *)
 Require Import Bytes AMap SMap Names State StateGetters NetRef DrvC04.
@@ -102,7 +102,7 @@ Definition run_ref (args : list str) : str :=
   | _route :: nick :: usr :: rest =>
       let cfg := mkConfig nick usr in
       let h := decode_events (length rest) rest in
-      let r := ref_run h in
+      let r := told_run h in
       let a := match run cfg state_init h with
                | Panic => false
                | Ok (s, _) => streqb (gr_dump cfg (abs s)) (gr_dump cfg r)
